@@ -719,7 +719,7 @@ func init() {
 	Register(&engine.Prop{
 		ID:    "C12",
 		Level: "exploration",
-		Rule: "6 source struct types (flat, groups, pointer groups, list of structs, required leaves under two optional or repeated ancestors, list tag) x target = source after <=1 (2 thorough) edits from {delete a field, swap adjacent fields, add optional leaf / required leaf / string / optional group / list} at EVERY position of the type tree x rows {all boundary-value alphabet rows in one file, each row alone} x 5 paths (NewReader(schema), GenericReader[any](schema), ConvertRowGroup, CopyRows into a writer of the target schema, MergeRowGroups with the target schema); Go types built with reflect.StructOf; " +
+		Rule: "12 source struct types (flat, groups, pointer groups, list of structs, required leaves under two optional or repeated ancestors, list tag, groups whose only template is an optional leaf / a repeated leaf / a sub-group, a repeated group of sub-groups next to a list that sorts before it by name, map values) x target = source after <=1 (2 thorough) edits from {delete a field, swap adjacent fields, add optional leaf / required leaf / string / optional group / list, required->optional, leaf<->group, single->repeated leaf, group->repeated (+ an added column)} at EVERY position of the type tree x rows {all boundary-value alphabet rows in one file, each row alone, all rows followed by a last row whose lists hold 400 elements} x 6 paths (NewReader(schema), GenericReader[any](schema), ConvertRowGroup, CopyRows into a writer of the target schema, MergeRowGroups with the target schema, the row-range view of the converted row group); Go types built with reflect.StructOf; " +
 			"non-trivial = at least one edit",
 		Assumptions: []string{"only compatible targets are generated (add / drop / permute), so a rejection counts as a violation; incompatible targets (leaf<->group, type changes) are not enumerated"},
 		Bound:       func(string) int { return 0 },
